@@ -310,13 +310,20 @@ class SideA:
         return [[v[i] for i in idxs] for idxs in self.mem_idx]
 
 
+class ConvertError(Exception):
+    """litex.gen.fhdl.verilog.convert itself raised on a design that LiteX elaborates and simulates"""
+
+
 class SideB:
     """vlog on convert(...).main_source (+ data files) of a fresh instance of the same constructor."""
     def __init__(self, mk, patches=(), extra=0, lenient=False, text_edit=None):
         self.mod, self.info = mk()
         info = self.info
         with golden(patches):
-            out = lx_verilog.convert(self.mod, ios=set(info["ios"]), name="top")
+            try:
+                out = lx_verilog.convert(self.mod, ios=set(info["ios"]), name="top")
+            except Exception as e:
+                raise ConvertError(f"{type(e).__name__}: {e}")
         self.out = out
         ns = out.ns
         self.text = out.main_source if text_edit is None else text_edit(out.main_source)
